@@ -17,6 +17,20 @@ CHECKS = {
              "Overlap.construct_array_contraction of /repo on every run. The 1e-8 accuracy clause is decided on the "
              "generated inputs only.",
         design="5 C01", technique="Coq proof (induction over the recursion) + model/implementation correspondence"),
+    "C05": dict(
+        text="Coq theorems (generic field, all n, l, alpha, x, by induction; x = 0 included): the Leibniz/Hermite sum "
+             "of the general back-end with the code's zeroing rules equals the polynomial u with d^n/dx^n[x^l "
+             "e^{-alpha x^2}] = u e^{-alpha x^2}; each branch of the hand-expanded direct back-end (l=0, l=1, l>=2; first "
+             "and second derivative) equals u for n <= 2, given the code's two `any` tests, which are proved to hold "
+             "for the complete component list of every angular momentum; hence the back-ends agree on every request "
+             "both accept; the model refuses the direct back-end exactly when some order exceeds 2 and refuses unknown "
+             "back-end names. Over the reals (Coquelicot, classical-reals axioms) u e^{-a x^2} is proved to be the "
+             "n-th derivative. The executable model (norms, contraction, axis product, norm_cont, spherical transform, "
+             "stacking, transform) is run (extracted OCaml, exact rationals, mpmath exp) against evaluate_basis and "
+             "evaluate_deriv_basis on every run: all 125 order triples x both back-ends, l 0..6, points on "
+             "centres/axes/planes. Block assembly above the axis rows is tied by correspondence only; the accuracy "
+             "clause (1e-9 x sum|terms|) is decided on the generated inputs.",
+        design="5 C05", technique="Coq proof (induction; Coquelicot bridge) + model/implementation correspondence"),
 }
 NOT_YET = {}
 
